@@ -4,6 +4,8 @@
 \* lfl 3..8: frame lists <= 2, payload <= 1.  hostile: strings over HostAlpha up to header + 2
 \* (lfl 3..8: over {00, FF} up to the header width).
 CONSTANTS
+  FixExtractOverflow = TRUE
+  FixFramerError = TRUE
   Lfls = {1, 2, 3, 4, 5, 6, 7, 8}
   HostLfls = {1, 2, 3, 4, 5, 6, 7, 8}
   Endians = {TRUE, FALSE}
